@@ -363,6 +363,21 @@ func (o *oRing) render() map[string]string {
 	return out
 }
 
+// shape is the ring without key bytes (evidence samples).
+func (o *oRing) shape() []string {
+	if o.err != "" {
+		return []string{"error(" + o.err + ")"}
+	}
+	out := []string{}
+	for _, k := range o.keys {
+		out = append(out, fmt.Sprintf("seq %d state=%s pub=%s priv=%s sym=%s", k.seq, k.state, okOrErr(k.pub), okOrErr(k.priv), okOrErr(k.sym)))
+	}
+	if o.curErr != "" {
+		return append(out, "current=none")
+	}
+	return append(out, fmt.Sprintf("current=%d", o.current))
+}
+
 func (m *mRing) render() map[string]string {
 	out := map[string]string{}
 	for _, k := range m.keys {
@@ -624,7 +639,7 @@ func (f *ringFixtures) histories() []ringHistory {
 		}, ops: []ringFaultOp{
 			{"add-sym", f.add("added-sym"), true},
 			{"add-pair", f.add("added-pair"), false},
-			{"set-current", setCurrent("k4-preactive-sym"), true},
+			{"set-current", setCurrent("k4-preactive-sym"), false},
 			{"activate-preactive", setState("k4-preactive-sym", api.KeyActive), false},
 			{"suspend-active-current", setState("k2-active-pair-current", api.KeySuspended), true},
 			{"compromise-deactivated", setState("k1-deactivated-sym", api.KeyCompromised), false},
@@ -853,7 +868,7 @@ func (m *monitor) runRingJob(kind string, j ringJob, base *ringBase, extraTorn i
 		for _, fc := range casesFor(call, extraTorn) {
 			if fc.mode.IsCrash() {
 				for _, fu := range valid {
-					if !(fu.kind == "retry" || fu.kind == "add" || (fu.kind == "add+set-current" && !quickDir) || (r.Thorough() && (fu.kind == "destroy" || fu.kind == "set-state"))) {
+					if !(fu.kind == "retry" || (fu.kind == "add" && !quickDir) || (fu.kind == "add+set-current" && !quickDir) || (r.Thorough() && (fu.kind == "destroy" || fu.kind == "set-state"))) {
 						continue
 					}
 					m.ringCase(c0, call, fc, fu, "fresh-handle")
@@ -1219,14 +1234,31 @@ func (m *monitor) ringCaseInner(c *ringCtx) {
 			how = []string{"second-store", "same-handle"}[i%2]
 		}
 		var ferr error
-		fo := ksrig.FaultRun(func() error {
-			rr, err := ringVia(how, op.ringPath())
-			if err != nil {
-				return err
-			}
-			return execRingOp(rr, seqs, op)
-		})
+		attempt := func() ksrig.FaultOutcome {
+			return ksrig.FaultRun(func() error {
+				rr, err := ringVia(how, op.ringPath())
+				if err != nil {
+					return err
+				}
+				return execRingOp(rr, seqs, op)
+			})
+		}
+		fo := attempt()
 		r.Count("ring_followup_writes_attempted", 1)
+		alreadyDone := c.fu.kind == "retry" && outcome1 == "new"
+		if fo.Panic == nil && fo.Err != nil && !alreadyDone && !(strings.Contains(fo.Err.Error(), "key path already exists") && staleNew(live)) {
+			// "keeps accepting further writes" is not "accepts every write at the first attempt": a key ring handle is a cached view, and
+			// the keystore's own conflict detection ("concurrent keystore modification", "duplicate key with seqnum") refuses ONE write
+			// made from a view that is behind the storage — e.g. after a rename that was performed but reported as failed — and
+			// re-reads the ring while doing so. The write is offered once more; a keystore that refuses it again does not accept it.
+			first := normErr(fo.Err.Error())
+			fo = attempt()
+			r.Count("ring_followup_second_attempts", 1)
+			if fo.Panic == nil && fo.Err == nil {
+				r.Count("ring_followup_accepted_at_second_attempt", 1)
+				r.SetAdd("ring_first_attempt_refusals_that_healed", op.kind+": "+first)
+			}
+		}
 		if fo.Panic != nil {
 			r.Count("panics", 1)
 			m.ringViolate(c, phaseFU, "panic("+ksrig.FaultPanicSite(fo.PanicStack)+")", map[string]interface{}{"panic": fmt.Sprint(fo.Panic), "stack": fo.PanicStack, "followup_operation": op.String()})
@@ -1243,11 +1275,12 @@ func (m *monitor) ringCaseInner(c *ringCtx) {
 					m.ringViolate(c, "retry-after-"+after, "write-blocked(key path already exists):leftover=keyring.new", map[string]interface{}{"followup_error": ferr.Error(), "followup_operation": op.String()})
 				}
 				r.Count("ring_followups_blocked_by_stale_keyring_new", 1)
-			case c.fu.kind == "retry" && outcome1 == "new":
+			case alreadyDone:
 				// the first attempt took effect although an error was returned (fault after the rename): "invalid state transition" /
 				// "concurrent keystore modification" is a legitimate answer to doing it again (as for the first layer's destroy retry)
 				r.Count("ring_retry_refused_already_done", 1)
 			default:
+				// refused twice
 				m.ringViolate(c, phaseFU, fmt.Sprintf("write-refused(%s:%s):leftover=%s", op.kind, etxt, map[bool]string{true: "keyring.new", false: "none"}[staleNew(live)]),
 					map[string]interface{}{"followup_error": ferr.Error(), "followup_operation": op.String(), "storage_after_fault": outcome1})
 			}
@@ -1293,7 +1326,8 @@ func (m *monitor) ringCaseInner(c *ringCtx) {
 	if crash {
 		how = "crash"
 	}
-	r.SampleN("ring-case:"+how+":"+c.handle, 2, sample)
+	sample["reopened_target_ring"] = o2.shape()
+	r.SampleN("ring-case:"+how+":"+c.fu.kind, 1, sample)
 }
 
 // candidatesBefore: the expected content right after the faulted operation (no follow-up yet).
